@@ -80,7 +80,9 @@ func (m *model) add(path string, o *expObj) *expObj {
 	return o
 }
 
-func (m *model) note(format string, a ...interface{}) { m.notes = append(m.notes, fmt.Sprintf(format, a...)) }
+func (m *model) note(format string, a ...interface{}) {
+	m.notes = append(m.notes, fmt.Sprintf(format, a...))
+}
 
 // pattern returns n deterministic bytes that differ per seed.
 func pattern(n int, seed byte) []byte {
@@ -650,6 +652,9 @@ func TestLibraryFiles(t *testing.T) {
 		for _, sc := range scenarios {
 			t.Run(fmt.Sprintf("sb%d/%s", sv, sc.name), func(t *testing.T) {
 				data, m := writeScenario(t, sv, sc)
+				for _, n := range m.notes {
+					t.Logf("library refused: %s", n)
+				}
 				f, err := indep.Decode(data, indep.TolerateAll())
 				if err != nil {
 					t.Fatalf("Decode (all deviations tolerated): %v", err)
@@ -679,4 +684,12 @@ func TestLibraryFiles(t *testing.T) {
 	}
 	sort.Strings(ks)
 	t.Logf("deviations used:\n  %s", strings.Join(ks, "\n  "))
+	if !t.Failed() && len(scenarios) >= 9 {
+		// the table of tolerated deviations must hold nothing the library does not actually do
+		for _, n := range indep.KnownDeviations {
+			if devTotal[n] == 0 {
+				t.Errorf("deviation %q is in indep.KnownDeviations but no library-written file needed it", n)
+			}
+		}
+	}
 }
